@@ -32,10 +32,11 @@ namespace rt { void name_range(const void *p, size_t n, const std::string &name)
 using std::string;
 using std::vector;
 
-enum Kind { SET_RFC, SET_TLD, SET_ALLOW, SETUP, IS_EMAIL, ERRSTR, FREE_INIT, LOCAL, ADOM, UDOM, IP4, IP6, IPADDR, TLD, SPECIAL, EMAIL, NKINDS };
-static const char *KNAME[NKINDS] = { "SET_RFC", "SET_TLD", "SET_ALLOW", "SETUP", "IS_EMAIL", "ERRSTR", "FREE_INIT", "LOCAL", "ADOM", "UDOM", "IP4", "IP6", "IPADDR", "TLD", "SPECIAL", "EMAIL" };
+enum Kind { SET_RFC, SET_TLD, SET_ALLOW, SETUP, IS_EMAIL, ERRSTR, FREE_INIT, EXIT, LOCAL, ADOM, UDOM, IP4, IP6, IPADDR, TLD, SPECIAL, EMAIL, NKINDS };
+static const char *KNAME[NKINDS] = { "SET_RFC", "SET_TLD", "SET_ALLOW", "SETUP", "IS_EMAIL", "ERRSTR", "FREE_INIT", "EXIT", "LOCAL", "ADOM", "UDOM", "IP4", "IP6", "IPADDR", "TLD", "SPECIAL", "EMAIL" };
 
 struct Op { int t = 0; Kind k = SETUP; long long v = 0; string a; int mf = 0; /* allocation fault: the mf-th malloc of this call returns NULL */
+            int x = -1; /* relay: the simulated thread that makes this call (default: thread t); program t's object travels from thread to thread, each handing it on when its call is complete */
             int ph = 0; /* handoff: 1 = a leading call of thread t's program made by the main thread before t starts, 2 = a trailing call made by the main thread after t was joined */ };
 struct Plan {
     string cfg = "random"; uint64_t seed = 0; long long index = -1; int nthreads = 2;
@@ -58,6 +59,7 @@ static sj::Value plan_to_json(const Plan &p) {
         if (op.k == IS_EMAIL || op.k >= LOCAL) o.set("a", op.a);
         if (op.mf) o.set("mf", op.mf);
         if (op.ph) o.set("ph", op.ph);
+        if (op.x >= 0 && op.x != op.t) o.set("x", op.x);
         a.push(o);
     }
     j.set("ops", a);
@@ -82,10 +84,14 @@ static Plan plan_from_json(const sj::Value &j) {
         Op op; string k = e.gets("k"); int ki = -1;
         for (int i = 0; i < NKINDS; i++) if (k == KNAME[i]) ki = i;
         if (ki < 0) continue;
-        op.k = (Kind)ki; op.t = (int)e.geti("t"); op.v = e.geti("v"); op.a = e.gets("a"); op.mf = (int)e.geti("mf"); op.ph = (int)e.geti("ph");
+        op.k = (Kind)ki; op.t = (int)e.geti("t"); op.v = e.geti("v"); op.a = e.gets("a"); op.mf = (int)e.geti("mf"); op.ph = (int)e.geti("ph"); op.x = (int)e.geti("x", -1);
         if (op.t < 0) op.t = 0;
         op.t %= p.nthreads;
+        if (op.x >= 0) op.x %= p.nthreads;
         if (op.a.find('\0') != string::npos) op.a = op.a.substr(0, op.a.find('\0'));
+#ifdef NDEBUG
+        op.mf = 0;      // release build: a failed allocation is a NULL dereference on the unchanged tree, not an observable outcome
+#endif
         p.ops.push_back(op);
     }
     for (const char *nm : { "main_init", "main_free" }) { const sj::Value *m = j.get(nm); if (m && m->kind == sj::Value::Arr) for (auto &e : m->a) { int t = (int)e.i; if (t >= 0 && t < p.nthreads) (nm[5] == 'i' ? p.main_init : p.main_free).push_back(t); } }
@@ -106,6 +112,7 @@ struct Shared {
     // per thread: its ops in order, which of them the main thread runs before the start [0,a) / after the join [b,n), who
     // initialises and frees the object, and the state carried from one segment to the next
     vector<vector<const Op *>> prog; vector<size_t> a, b; vector<char> init_by_main, free_by_main, stopped; vector<int> confirmed;
+    size_t exit_handlers_run = 0;
     string dangling;                            // the main thread found an object pointing into a finished thread's memory
     void layout() {
         const Plan &p = *plan; int n = p.nthreads;
@@ -120,8 +127,37 @@ struct Shared {
         }
         for (int t : p.main_init) init_by_main[t] = 1;
         for (int t : p.main_free) free_by_main[t] = 1;
+        build_items();
     }
-    void fresh_state() { stopped.assign(plan->nthreads, 0); confirmed.assign(plan->nthreads, -1); dangling.clear(); }
+    // concurrent phase: what the workers do, in plan order.  An item is eav_init of a program's object, one of its calls,
+    // or eav_free; it is executed by thread `exec` once the previous item of the same program is complete.
+    struct Item { int prog; int kind; size_t oi; int exec; long pred; bool needs_post; };
+    vector<Item> items; vector<vector<size_t>> byexec; vector<size_t> cursor; vector<char> inflight; vector<int> cur_prog;
+    bool in_concurrent = false, relay = false, exited = false;
+    void build_items() {
+        const Plan &p = *plan; int n = p.nthreads;
+        items.clear(); byexec.assign(n, {});
+        vector<long> last(n, -1); vector<size_t> pos(n, 0);
+        auto add = [&](int prog, int kind, size_t oi, int exec) {
+            Item it{ prog, kind, oi, exec, last[prog], false };
+            if (it.pred >= 0 && items[(size_t)it.pred].exec != exec) { items[(size_t)it.pred].needs_post = true; relay = true; }
+            last[prog] = (long)items.size(); items.push_back(it);
+        };
+        for (int t = 0; t < n; t++) if (a[t] == b[t]) {     // nothing for a worker to call: it still creates / destroys what the main thread does not
+            if (!init_by_main[t]) add(t, 0, a[t], t);
+            if (!free_by_main[t]) add(t, 2, a[t], t);
+        }
+        for (auto &op : p.ops) {
+            int t = op.t; size_t oi = pos[t]++;
+            if (oi < a[t] || oi >= b[t]) continue;
+            int x = op.x >= 0 ? op.x : t;
+            if (oi == a[t] && !init_by_main[t]) add(t, 0, oi, x);
+            add(t, 1, oi, x);
+            if (oi + 1 == b[t] && !free_by_main[t]) add(t, 2, oi, x);
+        }
+        for (size_t i = 0; i < items.size(); i++) byexec[items[i].exec].push_back(i);
+    }
+    void fresh_state() { int n = plan->nthreads; stopped.assign(n, 0); confirmed.assign(n, -1); dangling.clear(); exited = false; cursor.assign(n, 0); inflight.assign(n, 0); cur_prog.assign(n, -1); }
 };
 
 static string res_str(eav_result_t *r) {
@@ -138,6 +174,7 @@ static string res_str(eav_result_t *r) {
 // calls [lo,hi) of thread tid's program, on whichever thread calls this; by_main_after: the main thread continues with an
 // object that a joined thread used last
 static void run_segment(int tid, Shared *sh, size_t lo, size_t hi, bool do_init, bool do_free, bool concurrent, bool by_main_after = false) {
+    (void)concurrent;
     eav_t *e = (eav_t *)sh->objs[tid];
     vector<string> &out = sh->out[tid];
     int &confirmed = sh->confirmed[tid];
@@ -174,6 +211,12 @@ static void run_segment(int tid, Shared *sh, size_t lo, size_t hi, bool do_init,
         } break;
         case ERRSTR: { rt::enter_sut(); const char *m = eav_errstr(e); rt::leave_sut(); out.push_back(string("ERRSTR ") + (m ? m : "(null)")); } break;
         case FREE_INIT: { rt::enter_sut(); eav_free(e); eav_init(e); rt::leave_sut(); confirmed = -1; out.push_back("FREE_INIT"); } break;
+        case EXIT: {
+            // this thread calls exit(): the library's atexit handlers and destructors run on it while the other threads go on
+            // validating; exit() does not return, so the program ends here and its object is never freed
+            if (!sh->exited) { sh->exited = true; rt::enter_sut(); size_t n = rt::run_library_exit(); rt::leave_sut(); sh->exit_handlers_run += n; }
+            out.push_back("EXIT"); sh->stopped[tid] = 1;
+        } break;
         case LOCAL: {
             const char *le = at ? at : end; int r = 0;
             rt::enter_sut();
@@ -223,25 +266,41 @@ static void run_segment(int tid, Shared *sh, size_t lo, size_t hi, bool do_init,
         } break;
         default: break;
         }
-        if (concurrent && rt::thread_aborted()) break;
+        if (sh->stopped[tid]) break;
     }
     rt::arm_alloc_fault(0);
-    if (do_free) { rt::enter_sut(); eav_free(e); rt::leave_sut(); out.push_back("END"); }
+    if (do_free && !sh->stopped[tid]) { rt::enter_sut(); eav_free(e); rt::leave_sut(); out.push_back("END"); }
 }
 
-static void thread_entry(int tid, void *arg) { Shared *sh = (Shared *)arg; run_segment(tid, sh, sh->a[tid], sh->b[tid], !sh->init_by_main[tid], !sh->free_by_main[tid], true); }
+// a worker: its items in plan order; re-entered after an abort inside the library, with the aborted item still in flight
+static void thread_entry(int X, void *arg) {
+    Shared *sh = (Shared *)arg;
+    for (;;) {
+        size_t c = sh->cursor[X]; if (c >= sh->byexec[X].size()) break;
+        Shared::Item &it = sh->items[sh->byexec[X][c]];
+        if (!sh->inflight[X]) {
+            if (it.pred >= 0 && sh->items[(size_t)it.pred].exec != X) rt::wait(&sh->items[(size_t)it.pred]);
+            sh->inflight[X] = 1; sh->cur_prog[X] = it.prog;
+            if (it.kind == 1) run_segment(it.prog, sh, it.oi, it.oi + 1, false, false, true);
+            else run_segment(it.prog, sh, it.oi, it.oi, it.kind == 0, it.kind == 2, true);
+        }
+        sh->inflight[X] = 0;
+        if (it.needs_post) rt::post(&it);
+        sh->cursor[X] = c + 1;
+    }
+}
 static void seq_entry(int tid, void *arg) { Shared *sh = (Shared *)arg; run_segment(tid, sh, 0, sh->prog[tid].size(), true, true, false); }
 static void pre_entry(int tid, void *arg) { Shared *sh = (Shared *)arg; run_segment(tid, sh, 0, sh->a[tid], true, false, false); }
 static void post_entry(int tid, void *arg) { Shared *sh = (Shared *)arg; run_segment(tid, sh, sh->b[tid], sh->prog[tid].size(), false, true, false, true); }
 // the library aborted / asserted inside a call of this thread: that is the outcome of the call (what matters is whether
 // the same happens when the thread runs alone)
-static void on_abort(int tid, void *arg) { Shared *sh = (Shared *)arg; sh->out[tid].push_back("ABORTED inside the library"); sh->stopped[tid] = 1; rt::arm_alloc_fault(0); }
+static void on_abort(int tid, void *arg) { Shared *sh = (Shared *)arg; int prog = sh->in_concurrent ? sh->cur_prog[tid] : tid; if (prog < 0) prog = tid; sh->out[prog].push_back("ABORTED inside the library"); sh->stopped[prog] = 1; rt::arm_alloc_fault(0); }
 
 // ------------------------------------------------------------------ execution of one plan
 struct Viol { string cls, detail; };
 struct Stats {
     uint64_t plans = 0, steps = 0, events = 0, ctx_switches = 0, seq_steps = 0, ops = 0, lib_calls = 0, threads_hist[rt::MAXT + 1] = { 0 }, policy_hist[5] = { 0 };
-    uint64_t handoff_plans = 0, calls_by_main_before_start = 0, calls_by_main_after_join = 0, alloc_faults_attached = 0, aborted_calls = 0, spin_yields = 0, inconclusive_shadow_overflow = 0, write_shared = 0, sync_ops = 0, atomic_ops = 0, pseudo_writes = 0, outcome_cmp = 0, globals_dirty_after_seq = 0, races_seen = 0;
+    uint64_t exit_plans = 0, exit_handlers_run = 0, relay_plans = 0, relay_handovers = 0, handoff_plans = 0, calls_by_main_before_start = 0, calls_by_main_after_join = 0, alloc_faults_attached = 0, aborted_calls = 0, spin_yields = 0, inconclusive_shadow_overflow = 0, write_shared = 0, sync_ops = 0, atomic_ops = 0, pseudo_writes = 0, outcome_cmp = 0, globals_dirty_after_seq = 0, races_seen = 0;
     std::set<uint64_t> interleavings, plan_hashes, nontrivial;
     uint64_t kind[NKINDS] = { 0 };
 };
@@ -300,7 +359,9 @@ static void run_plan(const Plan &p, bool want_log, RunOut &ro, bool count = true
     cfg.pct_est_steps = seq_steps ? seq_steps : 1; cfg.sched_seed = p.sched_seed; cfg.replay = p.switches;
     cfg.step_budget = 20 * seq_steps + 2000;
     rt::Result res;
+    sh.in_concurrent = true;
     rt::run_concurrent(cfg, thread_entry, &sh, res);
+    sh.in_concurrent = false;
     ro.switches = res.switches;
     // second half: after the join the main thread makes the trailing calls and frees the objects
     if (handoff) {
@@ -355,6 +416,8 @@ static void run_plan(const Plan &p, bool want_log, RunOut &ro, bool count = true
         if (dirty) ST.globals_dirty_after_seq++;
         ST.races_seen += res.races.size();
         for (auto &op : p.ops) { ST.kind[op.k]++; if (op.mf) ST.alloc_faults_attached++; }
+        { bool ex = false; for (auto &op : p.ops) if (op.k == EXIT) ex = true; if (ex) ST.exit_plans++; ST.exit_handlers_run += sh.exit_handlers_run; }
+        if (sh.relay) { ST.relay_plans++; for (auto &it : sh.items) if (it.needs_post) ST.relay_handovers++; }
         if (handoff) { ST.handoff_plans++; for (int t = 0; t < p.nthreads; t++) { ST.calls_by_main_before_start += sh.a[t]; ST.calls_by_main_after_join += sh.prog[t].size() - sh.b[t]; } }
         for (int t = 0; t < p.nthreads; t++) for (auto &l : sh.out[t]) if (l.compare(0, 7, "ABORTED") == 0) ST.aborted_calls++;
         if (ST.interleavings.size() < 4000000) ST.interleavings.insert(res.interleaving_hash);
@@ -466,6 +529,9 @@ static Plan gen_plan(const string &cfg, uint64_t seed, long long index) {
     }
     unsigned p_low = (unsigned)sim_below(&w, 60), p_set = 5 + (unsigned)sim_below(&w, 25);
     unsigned p_alloc = sim_below(&w, 6) == 0 ? 5 + (unsigned)sim_below(&w, 30) : 0;     // one plan in six injects allocation failures
+#ifdef NDEBUG
+    p_alloc = 0;        // see plan_from_json
+#endif
     bool same_program = sim_below(&w, 4) == 0;    // all threads run the same calls: maximal overlap
     vector<Op> proto;
     for (int t = 0; t < p.nthreads; t++) {
@@ -496,6 +562,13 @@ static Plan gen_plan(const string &cfg, uint64_t seed, long long index) {
         }
         for (auto &o : mine) p.ops.push_back(o);
     }
+    // process exit (one plan in ten): one thread calls exit() in the middle of its program while the others keep validating
+    sim_rng er = sim_derive(rs, 6);
+    if (sim_below(&er, 10) == 0) {
+        int t = (int)sim_below(&er, (uint64_t)p.nthreads);
+        vector<size_t> idx; for (size_t i = 0; i < p.ops.size(); i++) if (p.ops[i].t == t) idx.push_back(i);
+        if (idx.size() >= 2) { size_t k = 2 + sim_below(&er, idx.size() - 1); Op ex; ex.t = t; ex.k = EXIT; p.ops.insert(p.ops.begin() + (long)(k < idx.size() ? idx[k] : idx.back() + 1), ex); }
+    }
     // object handoff (one plan in four): an eav_t is prepared, and perhaps already used, by the main thread before the worker
     // starts, and / or read, used and freed by the main thread after the worker was joined.  Creation and join order
     // everything, so each object is still used by one thread at a time.
@@ -507,6 +580,21 @@ static Plan gen_plan(const string &cfg, uint64_t seed, long long index) {
             if (sim_below(&hr, 2)) { lead = sim_below(&hr, std::min<size_t>(n, 6) + 1); for (size_t i = 0; i < lead; i++) mine[i]->ph = 1; if (!lead) p.main_init.push_back(t); }
             if (sim_below(&hr, 2)) { size_t tail = sim_below(&hr, std::min<size_t>(n - lead, 3) + 1); for (size_t i = 0; i < tail; i++) mine[n - 1 - i]->ph = 2; if (!tail) p.main_free.push_back(t); }
         }
+    }
+    // relay (one plan in six): a program's object travels between live workers - each call is made by some thread, which
+    // hands the object on when the call is complete (release / acquire).  The calls of all programs are merged at random so
+    // that the threads do not simply queue up behind program 0.
+    sim_rng rr = sim_derive(rs, 5);
+    if (p.nthreads >= 2 && sim_below(&rr, 6) == 0) {
+        vector<vector<Op>> q(p.nthreads); for (auto &o : p.ops) q[o.t].push_back(o);
+        for (int t = 0; t < p.nthreads; t++) {
+            if (sim_below(&rr, 3) == 0) continue;
+            int cur = t; unsigned den = 2 + (unsigned)sim_below(&rr, 6);
+            for (auto &o : q[t]) { if (sim_below(&rr, den) == 0) cur = (int)sim_below(&rr, (uint64_t)p.nthreads); o.x = cur; }
+        }
+        vector<size_t> at(p.nthreads, 0); vector<int> live; for (int t = 0; t < p.nthreads; t++) if (!q[t].empty()) live.push_back(t);
+        p.ops.clear();
+        while (!live.empty()) { size_t k = sim_below(&rr, live.size()); int t = live[k]; p.ops.push_back(q[t][at[t]++]); if (at[t] == q[t].size()) live.erase(live.begin() + (long)k); }
     }
     p.sched_seed = sim_next(&s);
     if (cfg == "pct") { p.policy = 3; p.depth = 1 + (int)sim_below(&s, 4); }
@@ -540,6 +628,9 @@ static sj::Value stats_json() {
     sj::Value j = sj::Value::object();
     j.set("plans", ST.plans); j.set("steps", ST.steps); j.set("logged_events", ST.events); j.set("context_switches", ST.ctx_switches); j.set("sequential_steps", ST.seq_steps);
     j.set("ops", ST.ops); j.set("outcome_comparisons", ST.outcome_cmp); j.set("write_shared_locations", ST.write_shared);
+    j.set("plans_with_exit_while_others_run", ST.exit_plans); j.set("library_exit_handlers_run", ST.exit_handlers_run);
+    j.set("library_constructors", (long long)rt::library_constructors()); j.set("library_exit_handlers_now", (long long)rt::library_exit_handlers());
+    j.set("relay_plans", ST.relay_plans); j.set("objects_handed_between_live_workers", ST.relay_handovers);
     j.set("handoff_plans", ST.handoff_plans); j.set("calls_by_main_before_start", ST.calls_by_main_before_start); j.set("calls_by_main_after_join", ST.calls_by_main_after_join);
     j.set("alloc_faults_attached", ST.alloc_faults_attached); j.set("calls_aborted_inside_library", ST.aborted_calls);
     j.set("sync_ops", ST.sync_ops); j.set("atomic_ops", ST.atomic_ops); j.set("spin_yields", ST.spin_yields); j.set("hidden_state_libc_calls", ST.pseudo_writes);
